@@ -319,6 +319,99 @@ fn finalize_contract() {
     kani::cover!(r.is_err());
 }
 
+// ------------------------------------------------------------------------------------------------
+// LZ77: one step of read_varint_with_multiplier_clustered_lz77 as an inductive step over Lz77State
+// ------------------------------------------------------------------------------------------------
+// State invariant lz_inv (established by Lz77State::new: everything 0 / empty; preserved by every step,
+// proved here, Ok or Err):
+//   window.len() == min(num_decoded, 2^20)
+//   copy_pos < num_decoded, or nothing decoded yet and copy_pos == num_to_copy == 0
+// and, on every Ok return (an Err between the two symbol reads of a repeat leaves num_to_copy set with a stale
+// copy_pos; the stream is dead then):  num_to_copy > 0  ==>  num_decoded - copy_pos <= 2^20
+// Preconditions from outside the step:
+//   min_length >= 3                         Lz77::parse, lib.rs:325: U32(3, 4, 5 + u(2), 9 + u(8))
+//   num_decoded < u32::MAX                  (a stream of 2^32 - 1 symbols; `num_decoded += 1` would overflow -- noted, not claimed)
+//   dist_multiplier <= 2^24                 callers pass the largest channel width of one modular stream
+//                                           (jxl-modular image.rs:460); NOT verified there. The arithmetic
+//                                           `offset + dist_multiplier as i32 * dist` needs dist_multiplier <= 306_783_377.
+//   cluster < configs.len(), clusters non-empty, every cluster id < configs.len()   (read_clusters: no holes)
+// The symbol reader is replaced by a stub with the ASSUMED contract "refills the bit buffer, consumes <= 16
+// bits, returns an arbitrary token <= 65535 or an error" -- what ans.rs / prefix.rs read_symbol obligations
+// establish; the LZ77 logic must be total for every such token sequence.
+fn stub_read_symbol(_c: &mut Coder, bs: &mut Bitstream, _cluster: u8) -> CodingResult<u32> {
+    let _ = bs.peek_bits_const::<15>();
+    let t: usize = kani::any();
+    kani::assume(t <= 16);
+    if bs.consume_bits(t).is_err() || kani::any() {
+        return Err(Error::InvalidAnsStream); // stands for "some error"; it is only propagated
+    }
+    let tok: u32 = kani::any();
+    kani::assume(tok <= u16::MAX as u32);
+    Ok(tok)
+}
+
+const WINDOW: usize = 1 << 20;
+const LZ_BOUND: usize = 8;
+
+fn lz_inv(st: &Lz77State) -> bool {
+    st.window.len() == (st.num_decoded as usize).min(WINDOW)
+        && if st.num_decoded == 0 { st.num_to_copy == 0 && st.copy_pos == 0 } else { st.copy_pos < st.num_decoded }
+}
+/// while a copy is pending its source is at most one window behind (so the ring buffer still holds it)
+fn lz_copy_in_window(st: &Lz77State) -> bool {
+    st.num_to_copy == 0 || st.num_decoded - st.copy_pos <= WINDOW as u32
+}
+
+#[kani::proof]
+#[kani::stub(Coder::read_symbol, stub_read_symbol)]
+#[kani::unwind(10)]
+fn lz77_step_contract() {
+    // BOUND: at most LZ_BOUND symbols decoded so far, i.e. a window of <= LZ_BOUND entries. (CBMC segfaults on a
+    // 2^20-entry symbolic window, so the wrap-around of the ring buffer at 2^20 is NOT exercised.)
+    let num_decoded: u32 = kani::any();
+    kani::assume(num_decoded <= LZ_BOUND as u32);
+    let mut window = kani::vec::exact_vec::<u32, { LZ_BOUND + 1 }>(); // capacity for the one push of this step
+    window.truncate(num_decoded as usize);
+    let mut st = Lz77State { lz_len_conf: any_cfg(), window, num_to_copy: kani::any(), copy_pos: kani::any(), num_decoded };
+    kani::assume(lz_inv(&st) && lz_copy_in_window(&st));
+    let min_symbol: u32 = kani::any();
+    let min_length: u32 = kani::any();
+    kani::assume(min_length >= 3 && min_length <= 9 + 255);
+    let dist_multiplier: u32 = kani::any();
+    kani::assume(dist_multiplier <= 1 << 24);
+    let c0: u8 = kani::any();
+    let c1: u8 = kani::any();
+    let cluster: u8 = kani::any();
+    kani::assume(c0 < 2 && c1 < 2 && cluster < 2);
+    let mut inner = DecoderInner { clusters: vec![c0, c1], configs: vec![any_cfg(), any_cfg()], code: Coder::PrefixCode(Arc::new(Vec::new())) };
+    let data: [u8; 16] = kani::any();
+    let mut bs = Bitstream::new(&data);
+    let copying = st.num_to_copy > 0;
+    let src = if copying { st.window[(st.copy_pos & 0xfffff) as usize] } else { 0 };
+    let slot = (num_decoded & 0xfffff) as usize;
+    let r = inner.read_varint_with_multiplier_clustered_lz77(&mut bs, cluster, dist_multiplier, &mut st, min_symbol, min_length);
+    // [C01] reaching here: no index-out-of-range on the window / SPECIAL_DISTANCES, no arithmetic overflow
+    assert!(lz_inv(&st), "[C01,C04] the LZ77 state invariant is preserved by every step, Ok or Err");
+    match &r {
+        Ok(v) => {
+            assert!(st.num_decoded == num_decoded + 1, "[C04] one more symbol decoded");
+            assert!(lz_copy_in_window(&st), "[C04] a pending copy reads values that are still in the 2^20 window");
+            assert!(st.window[slot] == *v, "[C04] the decoded value is recorded in the window at position num_decoded mod 2^20");
+            if copying {
+                assert!(*v == src, "[C04] while a copy is pending the value comes from the window at copy_pos, no bits are read");
+                assert!(bs.num_read_bits() == 0, "[C04] a pending copy reads no bits");
+            }
+        }
+        Err(_) => assert!(st.num_decoded == num_decoded, "[C04] a failed step decodes nothing"),
+    }
+    kani::cover!(r.is_ok() && copying);
+    kani::cover!(r.is_ok() && !copying && st.num_to_copy > 0 && dist_multiplier > 0); // a new copy was started through the special-distance table
+    kani::cover!(r.is_ok() && !copying && st.num_to_copy == 0);
+    kani::cover!(matches!(&r, Err(Error::UnexpectedLz77Repeat)));
+    kani::cover!(matches!(&r, Err(Error::InvalidLz77Symbol)));
+    kani::cover!(r.is_ok() && num_decoded == LZ_BOUND as u32);
+}
+
 #[kani::proof]
 fn canary() {
     let c = any_cfg();
